@@ -202,6 +202,8 @@ class Ref:
                     cur[1] |= 1 << b
             elif k == "if":
                 for cond, body in st[1]:
+                    if body and body[-1][0] == "abort":
+                        continue      # the DSL refused a statement in this branch and the caller dropped the whole branch
                     if self.ev(cond) != 0:
                         self.run_block(body, dom, nxt, mi, fsm_next)
                         break
@@ -225,6 +227,8 @@ class Ref:
             elif k == "next":
                 if dom == st[2]:
                     fsm_next[st[1]] = st[3]
+            elif k == "refused":
+                pass        # the DSL refused it: no effect
             elif k == "print":
                 if st[1] == dom and dom != "comb":
                     self.prints.append((mi, dom, self.format(st[2]) + "\n"))     # Print(...) ends with a newline, like print()
